@@ -4,6 +4,9 @@ import (
 	"bytes"
 	"fmt"
 	"io"
+	"math/rand"
+	"runtime"
+	"time"
 
 	"github.com/cloudwego/gopkg/bufiox"
 	"github.com/cloudwego/gopkg/protocol/thrift"
@@ -147,6 +150,57 @@ func monC09(c *drv.Ctx) {
 		runReaderHistory(cs, ops, spec, readerOpts{retain: true, cotenant: !san.PoolShim})
 		cs.Count(growths > 0, cfgName, opsString(ops), sched)
 		cs.C.Obs("growth ladders", 1)
+	})
+
+	// (1c) a reader or writer that is simply dropped (a connection that failed half way through): there never is
+	// a Release or Flush, so what it handed out stays the holder's for good - also after the dropped object has
+	// been collected and any finalizer of it has run
+	c.Stage("abandoned-without-release", c.Pick(60, 600), false, func(cs *drv.Case) {
+		r := cs.R
+		isWriter := cs.Idx%2 == 1
+		var held []heldSlice
+		var regions [][]byte
+		var snaps [][]byte
+		maxReq := 0
+		if !isWriter {
+			held = c09AbandonReader(r, &maxReq)
+		} else {
+			regions, snaps = c09AbandonWriter(r, &maxReq)
+		}
+		for k := 0; k < 3; k++ {
+			runtime.GC()
+			time.Sleep(time.Millisecond) // lets the finalizer goroutine run; nothing is decided by the clock
+		}
+		ct := &coTenant{r: r}
+		defer ct.done()
+		cs.Desc = M{"config": cfgName, "writer": isWriter, "held": len(held) + len(regions)}
+		for round := 0; round < 2; round++ {
+			if !ct.run(cs, held, nil, regions, maxReq, "abandoned") {
+				return
+			}
+		}
+		for _, h := range held {
+			if !bytes.Equal(h.b, h.snap) {
+				cs.Fail("retained-slice-changed", M{"stage": "abandoned reader"}, M{"message": fmt.Sprintf("slice #%d (%d bytes) of a reader that was dropped without Release changed after a GC and pool reuse (first diff %d)", h.op, len(h.b), firstDiff(h.b, h.snap))})
+				return
+			}
+			if san.PoolShim && san.PoolInFreed(h.b) {
+				cs.Fail("retained-slice-in-recycled-memory", M{"stage": "abandoned reader"}, M{"message": "a slice of a reader that was dropped without Release lies in a buffer that went back to the pool"})
+				return
+			}
+		}
+		for i, b := range regions {
+			if !bytes.Equal(b, snaps[i]) {
+				cs.Fail("writer-region-clobbered", M{"stage": "abandoned writer"}, M{"message": fmt.Sprintf("region #%d of a writer that was dropped without Flush changed after a GC and pool reuse", i)})
+				return
+			}
+			if san.PoolShim && san.PoolInFreed(b) {
+				cs.Fail("writer-region-in-recycled-memory", M{"stage": "abandoned writer"}, M{"message": "a region of a writer that was dropped without Flush lies in a buffer that went back to the pool"})
+				return
+			}
+		}
+		cs.Count(true, cfgName, isWriter, cs.Idx)
+		cs.C.Obs("abandoned readers/writers whose slices were re-checked after GC", 1)
 	})
 
 	// (2) writer histories: regions stay writable and disjoint until Flush
@@ -315,4 +369,65 @@ func lens(bs [][]byte) []int {
 		out[i] = len(bs[i])
 	}
 	return out
+}
+
+// c09AbandonReader uses a stream reader, keeps some of the slices it returned and drops the reader.
+//
+//go:noinline
+func c09AbandonReader(r *rand.Rand, maxReq *int) []heldSlice {
+	n := 30000 + r.Intn(60000)
+	data := make([]byte, n)
+	doubles.FillContent(data, r.Intn(1000))
+	rd := bufiox.NewDefaultReader(&doubles.Source{Data: data, Len: n, ErrAt: n, Err: io.EOF, Sched: r.Intn(doubles.NSched), R: r, Budget: 10*n + 100000})
+	var held []heldSlice
+	pos := 0
+	for k := 0; k < 2+r.Intn(5); k++ {
+		ask := []int{1, 50, 4000, 4097, 9000, 20000}[r.Intn(6)]
+		if pos+ask > n {
+			break
+		}
+		var b []byte
+		var err error
+		if r.Intn(3) == 0 {
+			b, err = rd.Peek(ask)
+		} else {
+			b, err = rd.Next(ask)
+			pos += ask
+		}
+		if err != nil {
+			break
+		}
+		if ask > *maxReq {
+			*maxReq = ask
+		}
+		held = append(held, heldSlice{b: b, snap: append([]byte(nil), b...), op: k})
+		if r.Intn(4) == 0 && len(held) == 1 {
+			rd.Release(nil) // an earlier Release ends earlier slices, not the ones handed out after it
+			held = held[:0]
+		}
+	}
+	return held
+}
+
+// c09AbandonWriter asks a stream writer for regions, fills them and drops the writer before any Flush.
+//
+//go:noinline
+func c09AbandonWriter(r *rand.Rand, maxReq *int) (regions, snaps [][]byte) {
+	w := bufiox.NewDefaultWriter(&doubles.Sink{})
+	for k := 0; k < 2+r.Intn(5); k++ {
+		ask := []int{1, 50, 4000, 4097, 9000, 20000}[r.Intn(6)]
+		b, err := w.Malloc(ask)
+		if err != nil {
+			break
+		}
+		for i := range b {
+			b[i] = regionByte(k+1, i)
+		}
+		if ask > *maxReq {
+			*maxReq = ask
+		}
+		regions = append(regions, b)
+		snaps = append(snaps, append([]byte(nil), b...))
+	}
+	return
 }
